@@ -595,7 +595,7 @@ CHAIN = {
                      "sudo and wasm_sudo) x message trees in which every node may fail and no failure is absorbed (reply_on in "
                      "{never, success}) x one earlier transaction of history; compared: Ok/Err, one response per message, the whole "
                      "observable state after the call, byte-identical raw storage after Err"),
-    "C02": dict(cfgs=["tree"], focus="reads,ok,raw,post,panic", always="ok",
+    "C02": dict(cfgs=["tree", "stake"], focus="reads,ok,raw,post,panic", always="ok",
                 need=["absorbed_failure_with_rolled_back_invocations", "reply_on_error", "reply_on_success", "failing_contract"],
                 what="trees of sub-messages A->B->C with fan-out 2 at the root, all four reply_on modes on every edge, every node "
                      "(contract body, reply handler, bank transfer, instantiation) failing or not; every node writes a distinct token; "
@@ -621,7 +621,7 @@ CHAIN = {
                      "(other modules' and contracts' raw prefixes), nested and top-level, two transactions; compared: every "
                      "contract's storage as read by itself, by raw query, by dump_wasm_raw and by contract_storage, at every "
                      "invocation and after the call"),
-    "C10": dict(cfgs=["tree", "private"], focus="reads,pure,views",
+    "C10": dict(cfgs=["tree", "private", "stake"], focus="reads,pure,views",
                 need=["absorbed_failure_with_rolled_back_invocations", "reply_on_error"],
                 what="the battery of bank / wasm raw / contract-info queries issued by the scripted contract at every entry-point "
                      "invocation of the C02 trees (in particular after a caught failure), and the same queries through App after "
@@ -643,7 +643,7 @@ CHAIN = {
                      "1-byte and 2-byte letter as response attribute key, event attribute key and event type, at execute / "
                      "instantiate / migrate / sudo / reply and inside a sub-message under every reply_on; compared: Ok/Err, the "
                      "emitted events (strings unchanged), state after"),
-    "C17": dict(cfgs=["routeacc", "routemix", "routefail"], focus="rlog,ok,panic,raw,post",
+    "C17": dict(cfgs=["routeacc", "routemix", "routefail", "stake"], focus="rlog,ok,panic,raw,post",
                 need=["module_called", "ok", "err"],
                 what="every message kind x origin (top-level, sub-message) x module configuration (all accepting, mixed, all "
                      "failing) x position (first / after a state change) x reply_on; compared: which module was called with which "
@@ -840,6 +840,13 @@ def check_staking(tier, ev):
     # deep random histories (20 operations) from TLC's simulation mode
     sim_and_replay(ev, "mc/MC_Staking.tla", "mc/MC_Staking_sim.cfg", "staking", 60 if tier == "quick" else 1500, 45,
                    env={"MTV_FOCUS": c["focus"]})
+    # staking in composition (Chain): the same keepers driven by users AND contracts, as sub-messages that are
+    # committed or rolled back, with payouts at block updates and rewards minted through the router
+    if ev.pid in ("C14", "C15"):
+        mc_and_replay(ev, "mc/MC_Chain.tla", f"mc/MC_Chain_stake_{tier}.cfg", "chain", 3400, [], coverage=False,
+                      env={"MTV_FOCUS": "post.sk,post.unbonding,post.bank,reads.sk,reads.bank,ok,panic,events,rlog", "MTV_ALWAYS": ""},
+                      need_features=["staking_message", "pending_unbonding_after", "nonzero_reward_visible", "payout_at_block_update",
+                                     "staking_message_from_contract_ok"])
     # design-level sanity: the two behaviours of the code before its repair are rejected by TLC
     for name, expect in (("dust_prefix", "StakersConsistent"), ("drift_prefix", "SlashKeepsWhole")):
         res, _ = run_tlc("mc/MC_Staking.tla", f"mc/MC_Staking_{name}.cfg", 900, f"{ev.pid}-{name}", coverage=False, expect_ok=False)
